@@ -192,6 +192,91 @@ def eval_case(case):
     return broken, tags
 
 
+def cprop_case(seed):
+    """whole `c_prop` of both classes on the raw memory of real objects against `cpuCProp` / `gpuCProp (evWave cfgSel loc)` with `accAdd`
+    (driver `wio-cprop`): the waveform every region READS AS after the propagation (cells behind a terminator are not compared: the
+    real evaluator leaves popped entries there), every lane, and every accumulator. Random accumulation control (weights 0 and
+    negative included), one to three delay data sets with per-lane selection modes 0 / 1, `c_prop(sims=k)`, random block shape,
+    objects with a history. returns (broken, tags)"""
+    rng = random.Random(seed)
+    c = circ.rand_circuit(rng, n_gates=rng.randint(1, 7), n_ff=rng.choice([0, 0, 1, 2]))
+    sims = rng.randint(1, 4)
+    nsets = rng.choice([1, 1, 2, 3])
+    d = wc.rand_delays(rng, len(c.lines), datasets=nsets)
+    strip, reuse = rng.random() < 0.3, rng.random() < 0.3
+    caps = rng.choice([4, 8, 16])
+    a_ctrl = None
+    if rng.random() < 0.8:
+        a_ctrl = np.zeros((len(c.lines) + 3, 3), dtype=np.int32)      # rows for the scratch indices behind the lines too
+        for l in range(len(c.lines) + 3):
+            a_ctrl[l] = (rng.choice([-1, 0, 0, 1, 2]), rng.choice([0, 1, 1, 2, -1, 3]), rng.choice([0, 1, 1, 2, -2]))
+    broken, tags = [], [f'cprop:sets={nsets}', 'cprop:' + ('a_ctrl' if a_ctrl is not None else 'no-a_ctrl')]
+    objs, reals = {}, {}
+    for p_, cuda in (('cpu', False), ('gpu', True)):
+        objs[p_] = wc.make_sim(c, d, sims, c_caps=caps, strip=strip, reuse=reuse, cuda=cuda, a_ctrl=a_ctrl)
+    objs['gpu']._block_dim = rng.choice(BLOCKS)
+    bx, by = objs['gpu']._block_dim
+    i, t, f = wc.rand_stim(rng, objs['cpu'].s_len, sims)
+    modes = [rng.choice([0, 1]) for _ in range(sims)] if nsets > 1 else [0] * sims
+    ctl0 = [rng.randrange(nsets) for _ in range(sims)]
+    cseed = rng.randrange(nsets)
+    k = rng.choice([sims, sims, rng.randint(1, sims)])
+    st = rng.getstate()
+    for p_ in ('cpu', 'gpu'):
+        ws = objs[p_]
+        rng.setstate(st)          # the same multi-transition input waveforms in both objects
+        wc.assign(ws, i, t, f)
+        wc.overwrite_inputs(ws, rng, p=0.5)
+        ws.simctl_int[0] = np.array(ctl0); ws.simctl_int[1] = np.array(modes)
+        if getattr(ws, 'abuf', None) is not None: ws.abuf[...] = 0
+        before = np.array(ws.c)
+        locs = [int(x) for x in np.array(ws.c_locs)]; capv = [int(x) for x in np.array(ws.c_caps)]
+        ops = np.array(ws.ops)
+        n_acc = int(ws.abuf_len) if int(ws.abuf_len) > 0 else 0
+        dl = np.array(ws.delays)
+        opsS = '/'.join(','.join(str(int(v)) for v in row[:9]) for row in ops) or '/'
+        levS = '/'.join(f'{int(a)},{int(b)}' for a, b in zip(ws.level_starts, ws.level_stops)) or '/'
+        delS = ';'.join('/'.join(','.join(str(int(round(float(dl[s_, l, p1, q1]) * wc.GRID))) for p1 in range(2) for q1 in range(2))
+                                 for l in range(dl.shape[1])) for s_ in range(dl.shape[0]))
+        req = (f"wio-cprop {p_} {k} {bx} {by} {n_acc} {dl.shape[0]} {cseed} {','.join(map(str, modes))} {','.join(map(str, ctl0))} "
+               f"{opsS} {levS} {','.join(map(str, locs))} {','.join(map(str, capv))} {delS} {_c_lanes(before, sims)}")
+        model = common.run_driver([req])[0]
+        try:
+            with common.quiet():
+                ws.c_prop(sims=k, seed=cseed)
+            after = np.array(ws.c); ab = np.array(ws.abuf)
+            lanes = []
+            for x in range(k):
+                waves = [f'{j}={wc.fmt_wave(*wc.read_wave(after, locs[j], capv[j], x))}' for j in range(len(locs)) if locs[j] >= 0 and capv[j] > 0]
+                lanes.append('/'.join(waves) + '#' + ','.join(str(int(ab[a, x])) for a in range(n_acc)))
+            real = ';'.join(lanes)
+            rest_ok = np.array_equal(after[:, k:], before[:, k:])
+        except wc.OffGrid:
+            raise
+        except Exception as ex:
+            real, rest_ok = f'{type(ex).__name__}: {ex}'[:200], True
+        reals[p_] = real
+        if real != model:
+            j = next((n for n, (u, v) in enumerate(zip(real.replace(';', '/').replace('#', '/').split('/'), model.replace(';', '/').replace('#', '/').split('/'))) if u != v), -1)
+            broken.append((f'path-tie: c_prop model ({p_}: {"cpuCProp" if p_ == "cpu" else "gpuCProp"} with evWave / accAdd) = real {type(ws).__name__}.c_prop, '
+                           f'waveform of every region and every accumulator',
+                           f'first differing field #{j}; sims={sims} k={k} sets={nsets} modes={modes} ctl0={ctl0} seed={cseed} block={bx}x{by} '
+                           f'strip={strip} reuse={reuse} caps={caps} real={real[:400]} model={model[:400]}'))
+        if not rest_ok:
+            broken.append((f'path-tie: c_prop(sims={k}) of {type(ws).__name__} changed a lane >= {k} (C06.c_prop_paths_agree: lanes beyond sims are untouched)', f'sims={sims}'))
+    # oracle (property C06 itself): the two code paths leave the same waveform in every region and the same accumulators
+    diff = None
+    if reals.get('cpu') != reals.get('gpu'):
+        a, b = reals.get('cpu', ''), reals.get('gpu', '')
+        fa, fb = a.replace(';', '/').replace('#', '/#').split('/'), b.replace(';', '/').replace('#', '/#').split('/')
+        j = next((n for n, (u, v) in enumerate(zip(fa, fb)) if u != v), -1)
+        diff = {'field': j, 'WaveSim': fa[j] if 0 <= j < len(fa) else a[:200], 'WaveSimCuda': fb[j] if 0 <= j < len(fb) else b[:200],
+                'sims': sims, 'k': k, 'sets': nsets, 'modes': modes, 'block': f'{bx}x{by}', 'strip': strip, 'reuse': reuse, 'caps': caps,
+                'a_ctrl': a_ctrl is not None}
+    tags += [f'cprop:k{"=" if k == sims else "<"}sims', 'cprop:modes=' + ('mixed' if len(set(modes)) > 1 else str(modes[0])), f'cprop:strip={int(strip)}:reuse={int(reuse)}']
+    return broken, tags, diff
+
+
 def finding_witness():
     """a(P)PI row without memory on the CPU path: a flip-flop `ff` without connected outputs (c_locs[ppi_offset + y] = -1) and a
     flip-flop `ff2` without data connection (captures the constant 0). `WaveSim.s_to_c` stores through the -1: c[-1], c[0], c[1] —
@@ -241,3 +326,20 @@ def corr(ck, n):
         for name, detail in broken:
             ck.broken_tie(name, detail, inp={'clause': 'path-tie', **cs})
         ck.case(key=('path-tie', cs['seed']), sample={'clause': 'path-tie', **cs}, tag=['clause:path-tie'] + tags)
+    # whole c_prop (waveform evaluator + accumulation) of both classes against cpuCProp / gpuCProp
+    for _ in range(max(4, n // 2)):
+        sd = ck.rng.randint(0, 2**31 - 1)
+        try:
+            broken, tags, diff = cprop_case(sd)
+        except wc.OffGrid:
+            ck.hist['off-grid-discarded'] += 1; continue
+        except common.DriverError:
+            raise
+        except Exception as ex:
+            broken, tags, diff = [('path-tie (c_prop) raised', f'{type(ex).__name__}: {ex}'[:300])], [], None
+        for name, detail in broken:
+            ck.broken_tie(name, detail, inp={'clause': 'path-tie-cprop', 'seed': sd})
+        if diff is not None:
+            ck.violation('config-code-path-cprop', 'WaveSim.c_prop and WaveSimCuda.c_prop leave different waveforms / accumulators on the same memory and tables',
+                         {'clause': 'path-tie-cprop', 'seed': sd}, diff, {'equal': 'both code paths'})
+        ck.case(key=('path-tie-cprop', sd), sample={'clause': 'path-tie-cprop', 'seed': sd}, tag=['clause:path-tie-cprop'] + tags)
